@@ -71,10 +71,9 @@ Proof. exact keys_match_is_sql_eq_l. Qed.
 (* the hand-written two-table path of Database::query (repaired code) returns exactly the rows SQL
    defines, for all tables, join types, ON / WHERE conditions, select lists (SELECT * included) and both
    naming styles outside the one open finding class 3 (cls_sql = 0), given that predicate evaluation
-   agrees with the reference on the rows it sees (C14) and that the model's `i as f64` bit pattern is
-   the float equal to i (int_bits_exact, a fact about Model/JoinHw.v f64_bits_of_int) *)
+   agrees with the reference on the rows it sees (C14) *)
 Theorem hw_join_correct :
-  int_bits_exact -> forall jt lw rw qual on w sel (L R : table) t s, let q := mkq [(lw, L); (rw, R)] [(jt, on)] w sel in cls_sql q qual = 0 -> Forall (fun l => length l = lw) L -> (forall e, opt_on jt on = Some e -> pred_ok e (pairs_of L R)) -> (forall e, w = Some e -> pred_ok e (join_rows jt lw rw (pair_tt (opt_on jt on)) L R)) -> hw_model q qual = HRows t -> query_spec q = Some s -> t = s.
+  forall jt lw rw qual on w sel (L R : table) t s, let q := mkq [(lw, L); (rw, R)] [(jt, on)] w sel in cls_sql q qual = 0 -> Forall (fun l => length l = lw) L -> (forall e, opt_on jt on = Some e -> pred_ok e (pairs_of L R)) -> (forall e, w = Some e -> pred_ok e (join_rows jt lw rw (pair_tt (opt_on jt on)) L R)) -> hw_model q qual = HRows t -> query_spec q = Some s -> t = s.
 Proof. exact hw2_correct_l. Qed.
 
 (* the finding classes repaired in /repo (1, 2, 3-residual, 4, 8, 10): on their former witnesses the models of
@@ -127,7 +126,7 @@ Check spill_transparent : forall budget rows, forallb srow_ok rows = true -> spi
 Check grace_budget_independent : forall jt n lk rk lw rw budget sw (L R : list hrow), forallb srow_ok L = true -> forallb srow_ok R = true -> exec_model AGraceDyn jt n (Some budget) sw lk rk lw rw L R = exec_model AGraceDyn jt n None sw lk rk lw rw L R.
 Check grace_dyn_is_sql_join : forall jt n lk rk lw rw spill sw (L R : list hrow), 0 < n -> (forall l r : hrow, keys_match_static (fst l) (fst r) lk rk = true -> snd l = snd r) -> (spill = None \/ (forallb srow_ok L = true /\ forallb srow_ok R = true)) -> exists t, exec_model AGraceDyn jt n spill sw lk rk lw rw L R = XRows t /\ Permutation t (join_rows jt lw rw (fun l r => keys_match_static l r lk rk) (map fst L) (map fst R)).
 Check keys_match_is_sql_eq : forall lw lk rk (l r : row), length l = lw -> length lk = length rk -> Forall (fun i => (i < lw)%nat) lk -> forallb no_bool l = true -> forallb no_bool r = true -> on3 (keys_expr lw lk rk) l r <> None -> keys_match_static l r lk rk = on_tt (keys_expr lw lk rk) l r.
-Check hw_join_correct : int_bits_exact -> forall jt lw rw qual on w sel (L R : table) t s, let q := mkq [(lw, L); (rw, R)] [(jt, on)] w sel in cls_sql q qual = 0 -> Forall (fun l => length l = lw) L -> (forall e, opt_on jt on = Some e -> pred_ok e (pairs_of L R)) -> (forall e, w = Some e -> pred_ok e (join_rows jt lw rw (pair_tt (opt_on jt on)) L R)) -> hw_model q qual = HRows t -> query_spec q = Some s -> t = s.
+Check hw_join_correct : forall jt lw rw qual on w sel (L R : table) t s, let q := mkq [(lw, L); (rw, R)] [(jt, on)] w sel in cls_sql q qual = 0 -> Forall (fun l => length l = lw) L -> (forall e, opt_on jt on = Some e -> pred_ok e (pairs_of L R)) -> (forall e, w = Some e -> pred_ok e (join_rows jt lw rw (pair_tt (opt_on jt on)) L R)) -> hw_model q qual = HRows t -> query_spec q = Some s -> t = s.
 Check repaired_classes_regression : repaired w1 = true /\ repaired w2 = true /\ repaired w3 = true /\ repaired w4 = true /\ repaired w8 = true /\ repaired w10 = true.
 Check open_class_refuted : refuted w3s 3 = true /\ (match w3s with Sql q _ _ _ => query_spec q | _ => None end) = Some [[VInt 1; VInt 1]; [VInt 2; VNull]; [VInt 3; VNull]].
 Check hash_respects_on_witness : keys_match_static [VInt 1; VInt 10] [VFloat 4607182418800017408; VInt 100] [0%nat] [0%nat] = true /\ (match w1 with Exec _ _ _ _ _ _ _ _ _ L R _ => forallb (fun l => forallb (fun r => implb (keys_match_static (fst l) (fst r) [0%nat] [0%nat]) (snd l =? snd r)) R) L | _ => false end) = true.
